@@ -46,9 +46,16 @@ type c15Sched struct {
 	log    messages.Log
 	out    *os.File
 	onHand func(offset uint64)
+	killIn int64
 }
 
 func (w *c15Sched) Schedule(ctx context.Context, offset uint64) {
+	if w.killIn >= 0 && int64(offset) == w.killIn {
+		// die inside the callback, before the hand-over is recorded
+		c15Logf(w.out, "K inCallback %d", offset)
+		syscall.Kill(os.Getpid(), syscall.SIGKILL)
+		time.Sleep(time.Hour)
+	}
 	payload := "?"
 	if p, err := w.log.Get(offset); err == nil && p != nil {
 		payload = string(p.Payload)
@@ -107,7 +114,10 @@ func c15Child(args []string) int {
 	total := end + uint64(appendBefore) + uint64(appendDuring)
 	ctx, cancel := context.WithCancel(wasp.StoreLogger(context.Background(), zap.NewNop()))
 	handed := 0
-	sched := &c15Sched{log: log, out: out}
+	sched := &c15Sched{log: log, out: out, killIn: -1}
+	if killPoint == "inCallback" {
+		sched.killIn = killOffset
+	}
 	messages.VerifSetPoint(func(name string, offset uint64) {
 		short := strings.TrimPrefix(name, "consume.")
 		if short == "afterCallback" {
@@ -378,9 +388,10 @@ func c15Scenario(c *fw.Ctx, idx int, rounds []c15Round) {
 
 func runC15(c *fw.Ctx) {
 	c.Level = "fault_enumeration"
-	c.Rule = "each scenario = a log of 30 / 520 / 2100 uniquely numbered messages consumed by a chain of separate processes on one data directory; every incarnation but the last is ended either by SIGKILL at an exact point of Consume (hook H5: before the callback, after it, after persisting the offset, after the truncation check) for a chosen offset - all four points x offsets around batch edges (9,10,11,20), segment rolls (499-501, 999-1001) and the truncation at 2000 (1999-2001) - or by context cancellation after N hand-overs, some with appends before/concurrently with consumption; the last incarnation runs to the end. Per-incarnation logs (written with one write(2) per line) give: offsets handed over, payload read at that offset, callback-returned marks. Oracle: within a run offsets are contiguous and carry the payload appended there; a run starts at c+1 (c = greatest offset whose hand-over completed earlier) or at c if the previous incarnation was killed (the message in flight), never earlier, never later; over all runs every appended offset is handed over. distinct = (log length, chain of end points); non-trivial = >=1 restart"
+	c.Rule = "each scenario = a log of 30 / 520 / 2100 uniquely numbered messages consumed by a chain of separate processes on one data directory; every incarnation but the last is ended either by SIGKILL at an exact point of Consume (hook H5: before the callback, after it, after persisting the offset, after the truncation check; plus inside the callback, from the recording writer) for a chosen offset - all four points x offsets around batch edges (9,10,11,20), segment rolls (499-501, 999-1001) and the truncation at 2000 (1999-2001) - or by context cancellation after N hand-overs, some with appends before/concurrently with consumption; the last incarnation runs to the end. Per-incarnation logs (written with one write(2) per line) give: offsets handed over, payload read at that offset, callback-returned marks. Oracle: within a run offsets are contiguous and carry the payload appended there; a run starts at c+1 (c = greatest offset whose hand-over completed earlier) or at c if the previous incarnation was killed (the message in flight), never earlier, never later; over all runs every appended offset is handed over. distinct = (log length, chain of end points); non-trivial = >=1 restart"
 	c.Assume("appends concurrent with consumption are only used in incarnations that end by cancellation, so that SIGKILL never interrupts the commit-log library in the middle of a write (that would test the library, not wasp)")
 	points := []string{"beforeCallback", "afterCallback", "afterPersist", "afterTruncate"}
+	allPoints := append([]string{"inCallback"}, points...)
 	scen := [][]c15Round{}
 	// small log: every point x several offsets, chains of 3 kills
 	for pi, p := range points {
@@ -392,6 +403,11 @@ func runC15(c *fw.Ctx) {
 			scen = append(scen, rs)
 		}
 	}
+	// death inside the callback (the recording writer kills the process before noting the hand-over)
+	for _, o := range []int64{0, 9, 10, 15} {
+		scen = append(scen, []c15Round{{appendBefore: 30, killPoint: "inCallback", killOffset: o}, {killPoint: "inCallback", killOffset: o + 10}, {killPoint: "afterCallback", killOffset: o + 12}, {final: true}})
+	}
+	scen = append(scen, []c15Round{{appendBefore: 520, killPoint: "inCallback", killOffset: 500}, {killPoint: "inCallback", killOffset: 500}, {final: true}})
 	// graceful stops and appends between/concurrently
 	scen = append(scen, []c15Round{{appendBefore: 12, stopAfter: 5}, {appendBefore: 10, stopAfter: 7}, {appendDuring: 25, stopAfter: 20}, {final: true}})
 	scen = append(scen, []c15Round{{appendBefore: 1, stopAfter: 1}, {appendBefore: 1, stopAfter: 1}, {appendBefore: 3, killPoint: "afterCallback", killOffset: 3}, {final: true}})
@@ -433,7 +449,7 @@ func runC15(c *fw.Ctx) {
 						edges := []int64{9, 10, 11, 499, 500, 501, 999, 1000, 1001, 1499, 1500, 1999, 2000, 2001, 2999, 3000}
 						o = edges[rg.Intn(len(edges))]
 					}
-					rs = append(rs, c15Round{appendBefore: ab, killPoint: points[rg.Intn(4)], killOffset: o})
+					rs = append(rs, c15Round{appendBefore: ab, killPoint: allPoints[rg.Intn(5)], killOffset: o})
 				}
 			}
 			rs = append(rs, c15Round{final: true})
@@ -452,7 +468,7 @@ func runC15(c *fw.Ctx) {
 		}(i, rs)
 	}
 	wg.Wait()
-	for _, p := range points {
+	for _, p := range allPoints {
 		c.Floor("kills_at_"+p, 3)
 	}
 	c.Floor("restarts_checked", 40)
